@@ -60,7 +60,7 @@ Proof.
   - unfold satisfy.
     destruct (satisfy_dirs p k (preferred d) cands) as [[i|] rest'] eqn:S;
       pose proof (satisfy_dirs_spec _ _ _ _ _ _ S) as [_ SB].
-    + destruct SB as (t & Ht & Hmid). rewrite Ht. cbn [fst].
+    + destruct SB as (t & Ht & Hmid & _). rewrite Ht. cbn [fst].
       eapply (Upd i t); eauto.
       destruct (adjust_fields d (set_rem t d)) as (Fm & _).
       unfold set_mid_if_empty. rewrite Fm. cbn [t_mid set_rem]. rewrite Hmid. reflexivity.
@@ -181,9 +181,10 @@ Qed.
 
 (* legality and totality together *)
 Lemma history_answer_exists_legal : forall os secs mid,
+  reoffer_ok (run_history os) secs = true ->
   setsender_guarded (set_remote (run_history os) secs) mid = true ->
   exists ds, answer_of (run_history os) secs mid = Ok ds /\ all_legal secs ds = true.
 Proof.
-  intros os secs mid G. destruct (answer_total (run_history os) secs mid) as (ds & H).
+  intros os secs mid Hr G. destruct (answer_total (run_history os) secs mid) as (ds & H).
   exists ds. split; auto. eapply history_answer_legal; eauto.
 Qed.
